@@ -162,6 +162,12 @@ fn check(c: &Case, ctx: &Ctx, route: Route) -> Outcome {
         files_a.push((names[i].clone(), cli::p(&fa)));
         let fb = dir.join(format!("b{i}.fa"));
         cli::write_fasta_auto(&fb, &m.trans[i], c.t.width.map(|w| w as usize));
+        // a quarter of the re-wrapped files also hold empty lines inside their records
+        if let Some(w) = c.t.width {
+            if (w as usize + i + c.k / 2) % 4 == 0 {
+                cli::add_blank_lines(&fb, 1 + w as usize % 3);
+            }
+        }
         if c.t.crlf {
             cli::to_crlf(&fb);
         }
